@@ -108,6 +108,7 @@ type c18obs struct {
 	res      []c18res
 	sig      string // first violation seen by a harness thread
 	what     string
+	inv      string // first broken invariant, "sig|description"
 	strict   string // first state with (conns not yet Close()d) + dials in flight > MaxConns
 	final    string
 	finalSig string
@@ -166,8 +167,17 @@ func (o *c18obs) dialFunc(addr string) (net.Conn, error) {
 	return cn, nil
 }
 
-// invariant runs at every scheduling step, i.e. in every reachable state. Messages are "sig|description".
+// invariant runs at every scheduling step, i.e. in every reachable state. The first broken condition is recorded as
+// "sig|description" in o.inv and the execution goes on to its natural end (ending it from inside the hook would unwind
+// the running thread's deferred Unlock calls after the engine has already released the next execution).
 func (o *c18obs) invariant() string {
+	if o.inv == "" {
+		o.inv = o.invariant1()
+	}
+	return ""
+}
+
+func (o *c18obs) invariant1() string {
 	c, max := o.c, o.s.maxConns
 	// attribute freshly queued waiters to the thread that just ran (it is the only one that can have pushed)
 	if q := c.connsWait; q != nil {
@@ -485,11 +495,9 @@ func c18check(name string, s *c18scn) func(x *mcrt.Exec) (string, string, string
 			return "", "", ""
 		}
 		cls := c18class(o)
-		if x.Out.Invariant != "" {
-			if sig, what, ok := strings.Cut(x.Out.Invariant, "|"); ok {
-				return cls, sig, what
-			}
-			return cls, "", ""
+		if o.inv != "" {
+			sig, what, _ := strings.Cut(o.inv, "|")
+			return cls, sig, what
 		}
 		if x.Out.Panic != "" {
 			first := x.Out.Panic
